@@ -17,6 +17,7 @@ type FuncReport struct {
 	Unknown  map[string]int
 	Rejected string
 	Specs    []string
+	OptionalDropped bool // an optional invariant did not apply: generate again without it
 }
 
 // verifyFunction generates all obligations of one function under contract.
@@ -207,6 +208,7 @@ func verifyFunction(P *Program, S *Specs, fn *ssa.Function, ct *Contract, prop s
 	}
 	ex.finish()
 	rep.Obs = ex.obs
+	rep.OptionalDropped = ex.optionalDropped
 	rep.Notes = sortedNotes(ex.notes)
 	rep.Unknown = ex.unknownCalls
 	for k := range ex.usedSpecs {
